@@ -12,6 +12,7 @@ import (
 )
 
 func TestMain(m *testing.M) {
+	flag.IntVar(&quietMin, "c01.quietmin", quietMin, "shortest quiet period (ms) of the quiet part; the longest is 10 s more (harness self-tests only: the registered part uses the default)")
 	flag.DurationVar(&debugStall, "c01.stall", 0, "harness self-test: heartbeats of a target with a receive timeout pause once for this long after its script is through")
 	flag.Parse()
 	os.Exit(m.Run())
@@ -61,6 +62,15 @@ func TestC01Resub(t *testing.T) {
 	runPart(t, "resub", func(rt *rapid.T) *Scenario {
 		return genFlowScenario(rt, flowParams{profile: "resub", maxFill: *maxFill, maxStorm: *maxStorm})
 	}, func(st *stats) bool { return st.nontrivial() && st.resubscribed })
+}
+
+// TestC01Quiet: targets that say nothing for 35-45 s of REAL time while plain client-library applications
+// (connection dialled by the library, short Query.Timeout) stay subscribed through a collector that runs
+// without periodic metadata; then the targets' state changes. Same oracle as every part. Non-trivial
+// additionally demands that an observer's stream demonstrably carried nothing for >= 33 s and then an update.
+// Thorough tier only: a case lasts about a minute however fast the machine is.
+func TestC01Quiet(t *testing.T) {
+	runPart(t, "quiet", func(rt *rapid.T) *Scenario { return genQuietScenario(rt) }, func(st *stats) bool { return st.nontrivial() && st.idleObserver })
 }
 
 func runPart(t *testing.T, part string, gen func(*rapid.T) *Scenario, nontrivial func(*stats) bool) {
